@@ -31,7 +31,7 @@ VK = ["scalar", "flat", "flatlist", "colvec", "collist", "ragged", "bad_same_tot
 FLOOR_TAGS = ["vk:" + v for v in VK] + ["mask:scalar", "mask:flat", "r:int", "r:slice+1", "r:slice+k", "r:slice-", "r:list", "r:mask", "r:ell",
                                         "recv:fresh", "recv:lazyrows", "recv:lazycols+2", "recv:lazycols-1", "recv:lazychain", "recv:deepcopy", "recv:pickle", "values:hostile-floats", "valdtype:other", "valdtype:exotic", "ellipsis-padded", "seq", "seq:50+", "vk:selfsel", "overlap", "value-is-receiver",
                                         "c:none", "c:int+", "c:int-", "c:slice+1", "c:slice+k", "c:slice-", "sel-has-empty-row", "e-first", "e-last", "e-mid", "allempty", "norows"]
-FLOOR_MONITORS = ["c03:footprint", "c03:must-refuse", "c03:bystander", "c03:alias", "c03:parent-untouched", "c03:pairs"]
+FLOOR_MONITORS = ["c03:footprint", "c03:must-refuse", "c03:bystander", "c03:alias", "c03:parent-untouched", "c03:pairs", "c03:selfflat"]
 FP_STRICT = True       # a floating-point event inside the library that the dense computation does not have is a violation (shard.FpMonitor)
 N_RANDOM = {"quick": 24000, "thorough": 300000}
 BASE = 100000
@@ -233,6 +233,58 @@ def run_pairs(case):
     return held(tags, len(lens) >= 2 and k >= 2)
 
 
+def run_selfflat(case):
+    """ra[index] = a window of ra's own flat view (ra.ravel()[off:off + k], as many cells as the index addresses): as in numpy the assigned
+    values are what the window held when the assignment was made, also where window and target overlap"""
+    lens, rs, cs, has_cs, off = case["lens"], case["rs"], case["cs"], case["has_cs"], case["off"]
+    recv = case.get("recv", "fresh")
+    tags = ["vk:selfflat", model.describe_selector(rs), model.describe_cols(cs, has_cs), "recv:" + recv] + gen.empty_placement(lens)
+    try:
+        kind, cells = model.select_cells(lens, rs, cs, has_cs)
+    except model.Refused:
+        return undefined("index not accepted for reading", tags)
+    flatcells = model.flat_cells(kind, cells)
+    k = len(flatcells)
+    tot = sum(lens)
+    if kind == "SC" or len(set(flatcells)) != k or k == 0 or off + k > tot:
+        return undefined("no window of that size", tags)
+    pyrows = gen.id_rows(lens)
+    oldflat = [v for r in pyrows for v in r]
+    flat = np.array(oldflat, dtype=np.int64)
+    ra, parent = c02.build_receiver(recv, flat, lens)
+    exp = [list(r) for r in pyrows]
+    for n_, (i, j) in enumerate(flatcells):
+        exp[i][j] = oldflat[off + n_]
+    if k >= 100000:
+        tags.append("selfflat:big")
+    CTX.tick("c03:selfflat")
+    idx = model.make_index(rs, cs, has_cs)
+    a = attempt(lambda: ra.__setitem__(idx, ra.ravel()[off:off + k]))
+    desc = "ra[%s] = ra.ravel()[%d:%d] on %d rows of lengths %s" % (short(idx, 80), off, off + k, len(lens), short(lens, 80))
+    if not a.ok:
+        return violated("%s raised %s: %s" % (desc, type(a.exc).__name__, a.exc), tags, got=repr(a))
+    got = peek(ra)
+    if got != exp:
+        bad = [(i, j) for i, (g_, e_) in enumerate(zip(got, exp)) if g_ != e_ for j in range(min(len(g_), len(e_))) if g_[j] != e_[j]][:4]
+        return violated("%s: cells %s do not hold the values the window held when the assignment was made (e.g. %s instead of %s)" % (
+            desc, bad, [got[i][j] for i, j in bad], [exp[i][j] for i, j in bad]), tags + ["overlap"])
+    return held(tags, len(lens) >= 2 and k >= 2)
+
+
+def selfflat_cases():
+    for lens in ([2, 1, 3, 0, 1], [3, 3, 3], [0, 4, 0, 2], [1, 1, 1, 1]):
+        tot = sum(lens)
+        for rs, cs, h in [(slice(1, None), None, False), (slice(None, -1), None, False), (slice(None), slice(1, None), True), (slice(None, None, -1), None, False), ([2, 0], None, False), (Ellipsis, None, False), (1, None, False)]:
+            for off in (0, 1, 2):
+                for recv in ("fresh", "lazyrows", "astype"):
+                    yield {"kind": "selfflat", "lens": lens, "rs": rs, "cs": cs, "has_cs": h, "off": off, "recv": recv}
+    # more than 100000 selected rows: whatever is done in pieces must still see the window as it was
+    for n_ in (100010, 200005):
+        lens = [(2, 1, 3, 0, 1)[i % 5] for i in range(n_)]
+        for rs, off in ((slice(1, None), 0), (slice(None, -1), 1), (slice(None, None, -1), 0), (slice(2, None), 3)):
+            yield {"kind": "selfflat", "lens": lens, "rs": rs, "cs": None, "has_cs": False, "off": off, "recv": "fresh"}
+
+
 def pairs_cases(rng, lens_list, recvs, per=4):
     for lens in lens_list:
         for recv in recvs:
@@ -247,6 +299,8 @@ def pairs_cases(rng, lens_list, recvs, per=4):
 def run(case):
     if case.get("kind") == "pairs":
         return run_pairs(case)
+    if case.get("kind") == "selfflat":
+        return run_selfflat(case)
     if "seq" in case:
         return run_seq(case)
     if "mask" in case:
@@ -578,6 +632,8 @@ def directed():
     # cells addressed by two integer index arrays (pairs, outer products, matrices)
     for c in pairs_cases(random.Random(3033), ([3, 2, 4, 1, 2], [2, 0, 3], [1, 1, 1], [4], [0, 5, 0, 2], [3, 3, 3], [2, 5, 2, 5]), ("fresh", "lazyrows", "lazycols+2", "lazychain", "fromnumpy", "astype"), per=8):
         yield c
+    for c in selfflat_cases():
+        yield c
     for k in range(40):
         yield gen_seq(rng, "quick", nsteps=[5, 12, 50, 60][k % 4])
     for k in range(150):
@@ -762,6 +818,6 @@ def random_case(rng, tier, lens=None, plain=False):
 def classify(case, res):
     if "seq" in case:
         return None
-    if "mask" in case or case.get("kind") == "pairs":
+    if "mask" in case or case.get("kind") in ("pairs", "selfflat"):
         return None
     return c02.classify(case, res)
